@@ -253,6 +253,7 @@ var VerifHTTPDial func(network, addr string) (net.Conn, error)
 
 var (
 	reSyncMutex  = regexp.MustCompile(`\bsync\.(RW)?Mutex\b`)
+	reSyncOnce   = regexp.MustCompile(`\bsync\.Once\b`)
 	reSyncOther  = regexp.MustCompile(`\bsync\.[A-Za-z]`)
 	reImportSync = regexp.MustCompile(`(?m)^(\s*)"sync"\s*$`)
 	reOSFile     = regexp.MustCompile(`\bos\.(WriteFile|ReadFile|Remove)\b`)
@@ -272,8 +273,9 @@ func addImport(src, line string) string {
 
 func rewriteGo(path, src string) (string, bool) {
 	changed := false
-	if reSyncMutex.MatchString(src) {
+	if reSyncMutex.MatchString(src) || reSyncOnce.MatchString(src) {
 		src = reSyncMutex.ReplaceAllString(src, "vsync.${1}Mutex")
+		src = reSyncOnce.ReplaceAllString(src, "vsync.Once")
 		src = addImport(src, `vsync "`+modPath+`/vsync"`)
 		if !reSyncOther.MatchString(strings.ReplaceAll(src, "vsync.", "")) {
 			src = reImportSync.ReplaceAllString(src, "")
